@@ -73,4 +73,30 @@ def run (fx : String) (hist : String) : String :=
       (s', observe s' r :: acc.2)) (([] : Sheet), [])
     " | ".intercalate outs.reverse
 
+
+
+/-- `cont <m|p> <history>`: child-kind bookkeeping of @media / @page -/
+def runCont (which : String) (hist : String) : String :=
+  let forbid := if which == "m" then mediaForbids else pageForbids
+  let step := fun (acc : List Kind × List String) (op : String) =>
+    let (kids, outs) := acc
+    match op.splitOn "." with
+    | ["i", k, idx] =>
+      match kindOf k with
+      | some k =>
+        let i := if idx == "n" then none else idx.toNat?
+        let (kids', r) := containerInsert forbid kids k i
+        (kids', s!"{showRes r};{" ".intercalate (kids'.map kindStr)}" :: outs)
+      | none => (kids, "bad-op" :: outs)
+    | ["d", i] =>
+      match parseInt i with
+      | some i =>
+        let (kids', r) := containerDelete kids i
+        (kids', s!"{showRes r};{" ".intercalate (kids'.map kindStr)}" :: outs)
+      | none => (kids, "bad-op" :: outs)
+    | _ => (kids, "bad-op" :: outs)
+  let (_, outs) := (hist.splitOn ",").foldl step ([], [])
+  " | ".intercalate outs.reverse
+
+
 end CssVerif.SheetOps
